@@ -966,7 +966,7 @@ impl ParserListener for Screen {
         let default_char = self.default_char();
         let line = self.buffer.entry(self.cursor.y).or_insert(HashMap::new());
         for x in self.cursor.x..self.columns {
-            if x + count <= self.columns {
+            if x + count < self.columns {
                 if let Some(char_opts) = line.remove(&(x + count)) {
                     line.insert(x, char_opts);
                 } else {
